@@ -42,7 +42,7 @@ def generate(tier, rng):
             s = rng.choice([x for e in t["entries"] for x in e[:-1]])
         cases.append({"op": op, "tier": t, "args": {"s": s, "d": rng.randint(1, big // 3), "mode": rng.choice(list(tierops.SPACE))},
                       "scale": sc})
-    for _ in range(100 if tier == "quick" else 2000):
+    for _ in range(300 if tier == "quick" else 3000):
         tiers = []
         for k in range(rng.randint(1, 3)):
             t = gen.random_itier(rng, name="i%d" % k, tmax=40) if rng.random() < 0.6 else gen.random_ptier(rng, name="p%d" % k, tmax=40)
